@@ -161,6 +161,11 @@ def extra(repo, reg, tier, seed):
                      "completion/references answer and of the diagnostics")
     it.count = n
     items.append(it)
+    w, n_hs = c15_sched.include_search_order(tier)
+    items.append(Item("C15/session/include_search_order_hash_seeds", "refuted" if w else "bounded-ok", "native-run(bounded)", 0.0,
+                      mode="bounded", witness=w, confirmed=True if w else None, func="fortls.parsers.internal.parser.preprocess_file",
+                      detail=f"bounded: {n_hs} hash seeds (one interpreter each): a header present next to the including file and in "
+                             "two include directories is always taken from the same place"))
     for case in c15_sched.KNOWN_CASES:
         w, n = c15_sched.run_case(case)
         it = Item(f"C15/session/schedule_exploration[{case}]", "refuted" if w else "bounded-ok", "native-run(bounded)", 0.0,
